@@ -298,6 +298,29 @@ ArmBranchBlock(w, dx) ==
           ELSE [k |-> "bl", enc |-> "BL_A1", imm |-> imm, tiset |-> "ARM", unp |-> FALSE]
   ELSE ArmLSM(w, dx)
 
+\* A5.6 / A5.7.1 / A6.3.18 coprocessor instructions: the same layout of bits 25:0 in the conditional ARM space (A1),
+\* the unconditional ARM space (A2, the "2" variants) and 32-bit Thumb (T1 / T2 by bit 28).  Only generic coprocessors
+\* are specified (CP10/11 = VFP / Advanced SIMD and CP14/15 system accesses reach hooks the emulator does not model).
+\* Semantics (ISA.tla ExecCoproc): UNDEFINED when NSACR / CPACR deny the access, otherwise the documented
+\* not-implemented outcome of the emulator's coprocessor hooks.
+CoprocSpace(w, sfx, thumb) ==
+  LET op1 == Slice(w, 25, 20)  cp == Slice(w, 11, 8)  op == Bit(w, 4)  n == Slice(w, 19, 16)
+      t == Slice(w, 15, 12)  t2 == Slice(w, 19, 16)
+      P == Bit(w, 24)  W == Bit(w, 21)
+      C(enc, mem, unp) == [k |-> "coproc", enc |-> enc \o sfx, cp |-> cp, memop |-> mem, unp |-> unp]
+  IN IF op1 \div 2 = 0 THEN Undef
+     ELSE IF cp \div 2 = 5 THEN Unspec("coproc-vfp-advsimd")
+     ELSE IF cp \in {14, 15} THEN Unspec("coproc-cp14-cp15")
+     ELSE IF op1 = 4 THEN C("MCRR", FALSE, t = 15 \/ t2 = 15 \/ (thumb /\ (t = 13 \/ t2 = 13)))
+     ELSE IF op1 = 5 THEN C("MRRC", FALSE, t = 15 \/ t2 = 15 \/ t = t2 \/ (thumb /\ (t = 13 \/ t2 = 13)))
+     ELSE IF op1 \div 32 = 0 /\ op1 % 2 = 0 THEN C("STC", TRUE, n = 15 /\ (W = 1 \/ thumb))
+     ELSE IF op1 \div 32 = 0 /\ n # 15 THEN C("LDC_i", TRUE, FALSE)
+     ELSE IF op1 \div 32 = 0 THEN C("LDC_lit", TRUE, W = 1 \/ (P = 0 /\ thumb))
+     ELSE IF op1 \div 16 = 2 /\ op = 0 THEN C("CDP", FALSE, FALSE)
+     ELSE IF op1 \div 16 = 2 /\ op1 % 2 = 0 THEN C("MCR", FALSE, t = 15 \/ (thumb /\ t = 13))
+     ELSE IF op1 \div 16 = 2 THEN C("MRC", FALSE, thumb /\ t = 13)
+     ELSE Unspec("coproc-space-other")
+
 ArmUncond(w) ==
   LET op1 == Slice(w, 27, 20) IN
   IF op1 = 16 /\ Bit(w, 16) = 0 /\ Bit(w, 5) = 0
@@ -317,6 +340,7 @@ ArmUncond(w) ==
   ELSE IF Slice(w, 27, 25) = 5
   THEN [k |-> "bl", enc |-> "BLX_i_A2", tiset |-> "THUMB", unp |-> FALSE,
         imm |-> SignExtW(WOr(LSLw(ExtractW(w, 23, 0), 2), <<0, Bit(w, 24) * 2>>), 26)]
+  ELSE IF Slice(w, 27, 26) = 3 /\ Slice(w, 25, 24) # 3 THEN CoprocSpace(w, "_A2", FALSE)
   ELSE Unspec("arm-unconditional")
 
 ArmDecode(w, dx) ==
@@ -327,7 +351,7 @@ ArmDecode(w, dx) ==
          [] op1 = 3 -> IF Bit(w, 4) = 0 THEN ArmLSWord(w, dx) ELSE ArmMedia(w, dx)
          [] op1 \in {4, 5} -> ArmBranchBlock(w, dx)
          [] op1 \in {6, 7} -> IF Slice(w, 25, 24) = 3 THEN [k |-> "svc", enc |-> "SVC_A1", imm |-> Lo(w), unp |-> FALSE]
-                               ELSE Unspec("arm-coproc")
+                               ELSE CoprocSpace(w, "_A1", FALSE)
 
 -----------------------------------------------------------------------------
 (* Thumb, 16-bit.  h is the halfword as a Nat. *)
@@ -711,12 +735,12 @@ T32BranchMisc(w, dx) ==
 
 T32Decode(w, dx) ==
   LET op1 == Slice(w, 28, 27)  op2 == Slice(w, 26, 20)  op == Bit(w, 15) IN
-  CASE op1 = 1 -> IF op2 \div 64 = 1 THEN Unspec("t32-coproc")
+  CASE op1 = 1 -> IF op2 \div 64 = 1 THEN (IF Slice(w, 25, 24) = 3 THEN Unspec("t32-advsimd-dp") ELSE CoprocSpace(w, "_T1", TRUE))
                   ELSE IF op2 \div 32 = 1 THEN T32DPShiftedReg(w)
                   ELSE IF (op2 \div 4) % 2 = 0 THEN T32LSM(w, dx) ELSE T32DualExclTB(w, dx)
     [] op1 = 2 -> IF op = 1 THEN T32BranchMisc(w, dx)
                   ELSE IF (op2 \div 32) % 2 = 0 THEN T32DPModImm(w) ELSE T32DPPlainImm(w)
-    [] op1 = 3 -> IF op2 \div 64 = 1 THEN Unspec("t32-coproc")
+    [] op1 = 3 -> IF op2 \div 64 = 1 THEN (IF Slice(w, 25, 24) = 3 THEN Unspec("t32-advsimd-dp") ELSE CoprocSpace(w, "_T2", TRUE))
                   ELSE IF op2 \div 32 = 0 THEN (IF op2 \div 16 = 1 /\ op2 % 2 = 0 THEN Unspec("t32-advsimd-ls") ELSE T32LSSingle(w, dx))
                   ELSE IF op2 \div 16 = 2 THEN T32DPReg(w, dx)
                   ELSE IF op2 \div 8 = 6 THEN T32Mul(w, dx)
